@@ -621,3 +621,10 @@ H("C16", "pbd", "c16_deformer_from_existing", tier="quick", unwind=16, timeout=1
          "body ids, link fields and all 36 matrix words symbolic",
   encodes=["pbd::PreBoneDeformer::from_existing", "pbd::PreBoneDeformerHeader / Item / Link / RacialDeformer (BinRead)", "common_file_operations::strings_parser"])
 H("C17", "gearsets", "c17_gearsets_header_with_empty_body", unwind=24, timeout=600, bounds="20-byte file: gear-set tag, content size 0 (concrete), all other bytes symbolic", encodes=["gearsets::GearSets::from_existing", "dat::DatHeader (BinRead)"])
+H("C05", "exd", "c05_exh_from_existing", tier="quick", unwind=20, timeout=900, cbmc_args=FS256, kani_args=["--no-assertion-reach-checks"],
+  bounds="50-byte sheet header: 2 columns, 1 page, 2 languages (counts, column types / offsets, language ids concrete); version, row count, page bounds symbolic",
+  encodes=["exh::EXH::from_existing", "exh::EXHHeader / ExcelColumnDefinition / ExcelDataPagination (BinRead)"])
+for n in ("without_additional_data", "with_two_bytes_of_additional_data"):
+    H("C18", "mtrl", "c18_material_" + n, tier="quick" if n.startswith("without") else "thorough", unwind=20, timeout=1200, cbmc_args=FS1K, kani_args=["--no-assertion-reach-checks"],
+      bounds="the 88-byte minimal material of c14_material_from_existing_minimal " + n.replace("_", " ") + " (size concrete), everything else as there",
+      encodes=["mtrl::Material::from_existing", "mtrl::MaterialData (BinRead)"], stubs=["core::str::validations::run_utf8_validation -> ASCII-only model"])
